@@ -1,6 +1,7 @@
 import CoapVerif.Lemmas.OptionRoundTrip
 import CoapVerif.Lemmas.CoderRoundTrip
 import CoapVerif.Lemmas.RefParser
+import CoapVerif.Lemmas.CoderEncode
 /-!
 Whatever a decoder accepts is well-formed (`WF`): numbers ascending, non-zero, 16-bit; value lengths
 expressible and registry-legal; token at most 8 bytes; code a byte; (datagram) two-bit type, 16-bit ID.
@@ -236,5 +237,150 @@ theorem tcpDec_ok_len (cap : Nat) (bs : Bytes) (m : Msg) (k : Nat) (h : tcpDec c
         obtain ⟨rfl, _⟩ := h
         have := decLoop_ok_len _ _ _ _ _ _ _ hdl (Nat.zero_le _)
         simpa using this
+
+/-! ## The canonical re-encoding is never longer than what was decoded -/
+
+def extLenOf (v : Nat) : Nat := if v ≤ 12 then 0 else if v ≤ 268 then 1 else 2
+
+theorem ext_length (v : Nat) : (ext v).length = extLenOf v := by
+  unfold ext extLenOf; split <;> (try split) <;> simp
+
+/-- Bytes consumed by a delta/length field = bytes its canonical encoding takes. -/
+theorem decExt_consumed {nib : Nat} {t r : Bytes} {v : Nat} (h : decExt nib t = .ok (v, r)) (hn : nib < 15) :
+    t.length = extLenOf v + r.length := by
+  unfold decExt at h
+  unfold extLenOf
+  split at h
+  · cases t with
+    | nil => simp at h
+    | cons b t' =>
+      simp at h; obtain ⟨rfl, rfl⟩ := h
+      have := b.toNat_lt
+      have a : ¬ (b.toNat + 13 ≤ 12) := by omega
+      have c : b.toNat + 13 ≤ 268 := by omega
+      simp [a, c]; omega
+  · split at h
+    · match t, h with
+      | [], h => simp at h
+      | [_], h => simp at h
+      | b0 :: b1 :: t', h =>
+        simp at h; obtain ⟨rfl, rfl⟩ := h
+        have a : ¬ (b0.toNat * 256 + b1.toNat + 269 ≤ 12) := by omega
+        have c : ¬ (b0.toNat * 256 + b1.toNat + 269 ≤ 268) := by omega
+        simp [a, c]; omega
+    · simp at h; obtain ⟨rfl, rfl⟩ := h
+      have : nib ≤ 12 := by omega
+      simp [this]
+
+theorem extLenOf_add (a b : Nat) : extLenOf (a + b) ≤ extLenOf a + 1 + extLenOf b := by
+  unfold extLenOf
+  split <;> split <;> split <;> (try split) <;> (try split) <;> omega
+
+theorem encOpt_length (prev : Nat) (o : Opt) :
+    (encOpt prev o).length = 1 + extLenOf (o.id - prev) + extLenOf o.val.length + o.val.length := by
+  simp [encOpt, ext_length]; omega
+
+/-- Re-basing the first delta after a dropped option costs at most the dropped option's header. -/
+theorem encOpts_rebase (reg : List (Nat × Nat × Nat)) (os : List Opt) (prev delta : Nat)
+    (h : optsWF reg (prev + delta) os = true) :
+    (encOpts prev os).length ≤ (encOpts (prev + delta) os).length + 1 + extLenOf delta := by
+  cases os with
+  | nil => simp [encOpts]
+  | cons o os =>
+    simp only [optsWF, Bool.and_eq_true, decide_eq_true_eq] at h
+    obtain ⟨⟨⟨⟨⟨h1, _⟩, _⟩, _⟩, _⟩, _⟩ := h
+    simp only [encOpts, List.length_append, encOpt_length]
+    have e : o.id - prev = (o.id - (prev + delta)) + delta := by omega
+    have := extLenOf_add (o.id - (prev + delta)) delta
+    rw [e]
+    omega
+
+theorem decLoop_enc_len (defs : Defs) (hu : noUnknown defs = true) (cap n prev : Nat) (bs : Bytes) (os : List Opt)
+    (rest : Bytes) (h : decLoop defs cap n prev bs = .ok (os, rest)) :
+    (encOpts prev os).length + (encPayload rest).length ≤ bs.length := by
+  induction hl : bs.length using Nat.strongRecOn generalizing n prev bs os rest with
+  | _ len ih =>
+    subst hl
+    cases bs with
+    | nil => rw [decLoop.eq_def] at h; simp at h; obtain ⟨rfl, rfl⟩ := h; simp [encOpts, encPayload]
+    | cons b t =>
+      rw [RefParser.decLoop_cons] at h
+      by_cases hff : b = 0xff
+      · simp [hff] at h; obtain ⟨rfl, rfl⟩ := h
+        simp only [encOpts, List.length_nil, Nat.zero_add, List.length_cons]
+        rw [CoderEncode.encPayload_len]; split <;> omega
+      · simp only [hff, ↓reduceIte] at h
+        by_cases hm : b.toNat / 16 = 15 ∨ b.toNat % 16 = 15
+        · simp [hm] at h
+        · simp only [hm, ↓reduceIte] at h
+          cases hd : decExt (b.toNat / 16) t with
+          | error e => simp [hd] at h
+          | ok r1 =>
+            obtain ⟨delta, t1⟩ := r1
+            simp only [hd] at h
+            cases hl2 : decExt (b.toNat % 16) t1 with
+            | error e => simp [hl2] at h
+            | ok r2 =>
+              obtain ⟨len', t2⟩ := r2
+              simp only [hl2] at h
+              by_cases hlen : t2.length < len'
+              · simp [hlen] at h
+              · simp only [hlen, ↓reduceIte] at h
+                by_cases hov : prev + delta > 65535
+                · simp [hov] at h
+                · simp only [hov, ↓reduceIte] at h
+                  by_cases hc : cap = n
+                  · simp [hc] at h
+                  · simp only [hc, ↓reduceIte] at h
+                    have hdn : b.toNat / 16 < 15 := by have := b.toNat_lt; omega
+                    have hln : b.toNat % 16 < 15 := by omega
+                    have c1 := decExt_consumed hd hdn
+                    have c2 := decExt_consumed hl2 hln
+                    have hlt : (t2.drop len').length < (b :: t).length := by simp; omega
+                    have hvl : (t2.take len').length < 4294967296 := by
+                      have := decExt_val_le hl2 hln; simp; omega
+                    have hk := keepOpt_eq defs hu (prev + delta) (t2.take len') hvl
+                    cases hrec : decLoop defs cap
+                        (if (keepOpt defs (prev + delta) (List.take len' t2)).isSome = true then n + 1 else n)
+                        (prev + delta) (t2.drop len') with
+                    | error e => simp [hrec] at h
+                    | ok r3 =>
+                      obtain ⟨os', rest'⟩ := r3
+                      have hrl := ih _ hlt _ _ _ _ _ hrec rfl
+                      have hwf' := decLoop_WF defs hu _ _ _ _ _ _ hrec
+                      simp only [hrec, Except.ok.injEq, Prod.mk.injEq] at h
+                      obtain ⟨hos, hrest⟩ := h
+                      subst hrest
+                      simp only [List.length_drop, List.length_cons] at hrl ⊢
+                      by_cases hkeep : prev + delta ≠ 0 ∧ lengthLegal (regOf defs) (prev + delta) (t2.take len').length = true
+                      · rw [hk, if_pos hkeep] at hos
+                        simp only at hos; subst hos
+                        simp only [encOpts, List.length_append, encOpt_length, List.length_take]
+                        have e : prev + delta - prev = delta := by omega
+                        have m' : min len' t2.length = len' := by omega
+                        rw [e, m']
+                        omega
+                      · rw [hk, if_neg hkeep] at hos
+                        simp only at hos; subst hos
+                        have := encOpts_rebase (regOf defs) os' prev delta hwf'
+                        have e0 : 0 ≤ extLenOf len' := Nat.zero_le _
+                        omega
+
+theorem tcpDec_body_len (cap : Nat) (bs : Bytes) (m : Msg) (k : Nat) (h : tcpDec cap bs = .ok (m, k)) :
+    (encBody m).length ≤ bs.length := by
+  unfold tcpDec at h
+  split at h
+  · cases h
+  · rename_i hd hh
+    split at h
+    · cases h
+    · split at h
+      · cases h
+      · rename_i os pay hdl
+        simp only [Except.ok.injEq, Prod.mk.injEq] at h
+        obtain ⟨rfl, _⟩ := h
+        have := decLoop_enc_len (TcpCoder.defsFor hd.code) (CoderRoundTrip.defsFor_noUnknown hd.code) _ _ _ _ _ _ hdl
+        simp only [encBody, List.length_append, List.length_drop, List.length_take] at this ⊢
+        omega
 
 end CoapVerif.Lemmas.DecodeWF
